@@ -422,7 +422,7 @@ pub fn run(p: &Params, rep: &mut Report) {
         "numeric/string cross-type: a numeric or datetime value equals a string operand iff the string parses to the same value".into(),
         "searching with a key but without a set ignores the key (documented)".into(),
     ];
-    let total: u64 = if p.thorough { 20000 } else { 500 };
+    let total: u64 = if p.thorough { 20000 } else { 6000 };
     for k in p.cases(total) {
         rep.current_case = p.case_coord(k);
         rep.cases += 1;
